@@ -633,14 +633,29 @@ package server
 
 //@ func (*server.ServiceMap).bindingsForHost
 //@ assigns nothing
-//@ ensures[C04] exact_host_first: haskey(m.requestServiceMap, host) ==> result == m.requestServiceMap[host]
-//@ ensures[C04] then_one_level_wildcard: !haskey(m.requestServiceMap, host) && strings.Index(host, ".") > 0 && haskey(m.requestServiceMap, wildcardOf(host)) ==> result == m.requestServiceMap[wildcardOf(host)]
-//@ ensures[C04] then_default: !haskey(m.requestServiceMap, host) && !(strings.Index(host, ".") > 0 && haskey(m.requestServiceMap, wildcardOf(host))) ==> (haskey(m.requestServiceMap, "") ==> result == m.requestServiceMap[""]) && (!haskey(m.requestServiceMap, "") ==> isnil(result))
+//@ ensures[C04] exact_then_wildcard_then_default: result == hostBindings(m, host)
 
 //@ func (*server.ServiceMap).serviceFor
-//@ requires bindings_wf: forall h string, i int :: haskey(m.requestServiceMap, h) && 0 <= i && i < len(m.requestServiceMap[h]) ==> m.requestServiceMap[h][i] != nil
+//@ attr opaque = ets, hostBindings
+//@ requires bindings_wf: forall i int :: 0 <= i && i < len(hostBindings(m, host)) ==> hostBindings(m, host)[i] != nil && hostBindings(m, host)[i].service != nil
 //@ assigns nothing
 //@ ensures[C04] first_matching_binding: result0 != nil ==> exists i int :: 0 <= i && i < len(hostBindings(m, host)) && hostBindings(m, host)[i].service == result0 && hostBindings(m, host)[i].pathPrefix == result1 && etsMatch(result1, path) && forall j int :: 0 <= j && j < i ==> !etsMatch(hostBindings(m, host)[j].pathPrefix, path)
-//@ ensures[C04] none_matches: result0 == nil ==> result1 == "" && forall j int :: 0 <= j && j < len(hostBindings(m, host)) ==> !etsMatch(hostBindings(m, host)[j].pathPrefix, path) || hostBindings(m, host)[j].service == nil
+//@ ensures[C04] none_matches: result0 == nil ==> forall j int :: 0 <= j && j < len(hostBindings(m, host)) ==> !etsMatch(hostBindings(m, host)[j].pathPrefix, path)
+//@ ensures[C04] longest_matching_prefix_wins: sortedByPrefixLength(hostBindings(m, host)) && result0 != nil ==> forall j int :: 0 <= j && j < len(hostBindings(m, host)) && etsMatch(hostBindings(m, host)[j].pathPrefix, path) ==> len(hostBindings(m, host)[j].pathPrefix) <= len(result1)
 //@ loop 1 invariant[C04] nothing_matched_so_far: forall j int :: 0 <= j && j < idx ==> !etsMatch(coll[j].pathPrefix, path)
 //@ loop 1 invariant same: coll == hostBindings(m, host) && idx <= len(coll)
+
+//@ func (*server.ServiceMap).ServiceForHost
+//@ attr opaque = ets, hostBindings
+//@ requires bindings_wf: forall i int :: 0 <= i && i < len(hostBindings(m, host)) ==> hostBindings(m, host)[i] != nil && hostBindings(m, host)[i].service != nil
+//@ assigns nothing
+//@ ensures[C16] root_binding_of_host: result != nil ==> exists i int :: 0 <= i && i < len(hostBindings(m, host)) && hostBindings(m, host)[i].service == result && etsMatch(hostBindings(m, host)[i].pathPrefix, "/")
+//@ ensures[C16] none: result == nil ==> forall j int :: 0 <= j && j < len(hostBindings(m, host)) ==> !etsMatch(hostBindings(m, host)[j].pathPrefix, "/")
+
+//@ func (*server.ServiceMap).ServiceForRequest
+//@ attr opaque = ets, hostBindings
+//@ requires req != nil && req.URL != nil
+//@ requires bindings_wf: forall i int :: 0 <= i && i < len(hostBindings(m, routingHost(req.Host))) ==> hostBindings(m, routingHost(req.Host))[i] != nil && hostBindings(m, routingHost(req.Host))[i].service != nil
+//@ assigns nothing
+//@ ensures[C04] routed_by_host_without_port_and_path: result0 != nil ==> exists i int :: 0 <= i && i < len(hostBindings(m, routingHost(req.Host))) && hostBindings(m, routingHost(req.Host))[i].service == result0 && hostBindings(m, routingHost(req.Host))[i].pathPrefix == result1 && etsMatch(result1, req.URL.Path) && forall j int :: 0 <= j && j < i ==> !etsMatch(hostBindings(m, routingHost(req.Host))[j].pathPrefix, req.URL.Path)
+//@ ensures[C04] no_service: result0 == nil ==> forall j int :: 0 <= j && j < len(hostBindings(m, routingHost(req.Host))) ==> !etsMatch(hostBindings(m, routingHost(req.Host))[j].pathPrefix, req.URL.Path)
